@@ -614,6 +614,62 @@ def pinAccepted (k : Kind) : List PinOp → List PinRes → Nat
   | _ :: ops, _ :: rs => pinAccepted k ops rs
   | _, _ => 0
 
+/-! ### `pickFallbackResponse`: what `lookup` hands back when no authority answered cleanly -/
+
+inductive LookupErr | workLimit | attemptLimit | other
+deriving Repr, DecidableEq
+
+inductive Picked
+  | work | attempt | resp (i : Nat) | config | conn | none
+deriving Repr, DecidableEq
+
+def firstNX : List Nat → Nat → Option Nat
+  | [], _ => .none
+  | rc :: t, i => if rc = 3 then some i else firstNX t (i + 1)
+
+/-- `pickFallbackResponse(responseErrors, configErrors, fatalErrors)`: rcodes of the error responses in
+arrival order, number of bogus-referral responses, the errors of the attempts. -/
+def pickFallback (rcodes : List Nat) (nconfig : Nat) (errs : List LookupErr) : Picked :=
+  if errs.contains .workLimit then .work
+  else match firstNX rcodes 0 with
+    | some i => .resp i
+    | .none =>
+      if errs.contains .attemptLimit then .attempt
+      else if rcodes ≠ [] then .resp 0
+      else if nconfig ≠ 0 then .config
+      else if errs ≠ [] then .conn
+      else .none
+
+/-- `recordResolutionZoneFailure`'s own guard: which causes may publish a zone-wide failure. -/
+def zoneFailureRecordable (zoneKnown bestEffort ctxErr : Bool) (cause : Option ErrClass) : Bool :=
+  zoneKnown && !bestEffort && !ctxErr &&
+    (match cause with
+     | some .canceled | some .deadline | some .workLimit | some .attemptLimit | some .maxRecursion => false
+     | _ => true)
+
+/-! ### forwarder mode: every hop of an alias chain is an upstream query of the same tree -/
+
+def ApiOp.isOutboundDebit : ApiOp → Bool
+  | .debit .outbound _ => true
+  | _ => false
+
+/-- run API calls in order until one is refused; count the admitted outbound debits (each is one
+query that really goes upstream: `BeforeAttempt` precedes the dial). -/
+def runOps (p : Policy) : Shared → List ApiOp → Shared × Nat × Bool
+  | sh, [] => (sh, 0, true)
+  | sh, op :: t =>
+    match apiStep p sh op with
+    | (sh', .ok) =>
+      let r := runOps p sh' t
+      (r.1, r.2.1 + (if op.isOutboundDebit then 1 else 0), r.2.2)
+    | (sh', .limit _ _) => (sh', 0, false)
+
+/-- the work of resolving an alias chain of `len` bare CNAMEs through the forwarder with a cold cache:
+the client's question goes upstream (`Forwarder.ServeDNS`: outbound debit), then for every hop the cache's
+chase starts an internal sub-query (`Queryer.Query`: internal debit) that goes upstream again. -/
+def forwardOps (len : Nat) : List ApiOp :=
+  .debit .outbound true :: (List.range len).flatMap fun _ => [.debit .internal true, .debit .outbound true]
+
 /-- `failover.ResponseWriter.WriteMsg` on a downstream SERVFAIL (RD set, one fallback server that
 answers): a request tree that already latched an enforcement error — whichever budget ran out —
 gets the policy SERVFAIL and no fallback query; otherwise the fallback attempt is one more
